@@ -183,6 +183,11 @@ func (e *EncryptedISO) ReadAt(b []byte, off int64) (int, error) {
 	}
 
 	data := buf[:read]
+	if tail := sizeBytes(len(data)) % sectorSize; tail != 0 && e.isEncrypted((alignedStart + sizeBytes(len(data))).floorSectors()) {
+		// underlying file ended inside a sector of encrypted region: it can't be decrypted and must not be served as is
+		data = data[:sizeBytes(len(data))-tail]
+	}
+
 	e.clearRegionsData(alignedStart, data)
 	e.decryptData(alignedStart, data, true)
 
@@ -215,6 +220,16 @@ func (e *EncryptedISO) Seek(offset int64, whence int) (int64, error) {
 
 	e.offset = sizeBytes(newOffset)
 	return newOffset, nil
+}
+
+func (e *EncryptedISO) isEncrypted(sector sizeSectors) bool {
+	for _, region := range e.encryptedRegions {
+		if region.start <= sector && sector < region.end {
+			return true
+		}
+	}
+
+	return false
 }
 
 func (e *EncryptedISO) clearRegionsData(start sizeBytes, data []byte) {
